@@ -107,7 +107,7 @@ func c13Doc() map[string]any {
 		},
 		"u": []any{
 			map[string]any{"rid": 0.0, "b": 2.0, "g": "x"},
-			map[string]any{"rid": 1.0, "b": 3.0, "g": "x"},
+			map[string]any{"rid": 1.0, "b": 3.0, "g": "y"},
 		},
 	}
 }
@@ -155,11 +155,30 @@ func (p *c13) RunCase(i int) *core.CaseResult {
 		sqls[k] = p.sqlOf(c, k)
 	}
 	opts := func() []genql.QueryOption { return []genql.QueryOption{genql.WithVars(map[string]any{})} }
+	raceSeen := map[string]bool{}
+	raceBase := racemon.Errors()
+	// drainRaces reports every race the detector printed since the last call (whatever part of
+	// the case ran in between: solo run, warm-up or an explored schedule)
+	drainRaces := func(what string, prefix []int32) {
+		if racemon.Errors() == raceBase {
+			return
+		}
+		raceBase = racemon.Errors()
+		for _, rep := range racemon.Drain() {
+			if raceSeen[rep.Sig] {
+				continue
+			}
+			raceSeen[rep.Sig] = true
+			r.Fail("C13|"+rep.Sig, fmt.Sprintf("%v (shared document: %v, warm cache: %v) %s %v: %s", sqls, c.shared, c.warm, what, prefix, rep.Text),
+				map[string]any{"threads": sqls, "shared_document": c.shared, "warm_selector_cache": c.warm, "choices": append([]int32{}, prefix...), "report": rep.Text})
+		}
+	}
 	// solo results (sequential, outside the exploration)
 	solo := make([][]string, n)
 	for k := range sqls {
 		genql.VerifResetSelectorCache()
 		o := gq.Run(c13Doc(), sqls[k], opts()...)
+		drainRaces("solo run of thread "+fmt.Sprint(k), nil)
 		r.Execs++
 		if o.Failed() || o.GPanic != "" {
 			r.Fail(p.sig(c, "solo-"+o.Status()), fmt.Sprintf("%s alone: %s %v %s %s", sqls[k], o.Status(), o.Err, o.Panic, o.GPanic), map[string]any{"sql": sqls[k]})
@@ -173,7 +192,6 @@ func (p *c13) RunCase(i int) *core.CaseResult {
 	outs := make([]*gq.Out, n)
 	cfg := vrt.Config{Sched: true}
 	outcomes := map[string]bool{}
-	raceSeen := map[string]bool{}
 	run := func(prefix []int32) *vrt.Result {
 		docs := make([]map[string]any, n)
 		shared := c13Doc()
@@ -237,18 +255,8 @@ func (p *c13) RunCase(i int) *core.CaseResult {
 		return ok
 	}
 	e := newExplorer(func(prefix []int32) *vrt.Result {
-		before := racemon.Errors()
 		res := run(prefix)
-		if racemon.Errors() > before {
-			for _, rep := range racemon.Drain() {
-				if raceSeen[rep.Sig] {
-					continue
-				}
-				raceSeen[rep.Sig] = true
-				r.Fail("C13|"+rep.Sig, fmt.Sprintf("%v (shared document: %v, warm cache: %v) schedule %v: %s", sqls, c.shared, c.warm, prefix, rep.Text),
-					map[string]any{"threads": sqls, "shared_document": c.shared, "warm_selector_cache": c.warm, "choices": append([]int32{}, prefix...), "report": rep.Text})
-			}
-		}
+		drainRaces("schedule", prefix)
 		return res
 	}, check, 400000)
 	// pairs/triples: one preemption less than single-query harnesses (a preemption right after an
